@@ -814,6 +814,7 @@ class RF24:
         # self._reg_write(0xE3)
         up_cnt = 0
         self._ce_pin.value = True
+        self.update()  # the STATUS byte clocked in so far predates clear_status_flags()
         while not self._in[0] & 0x30:
             up_cnt += self.update()
         # self._ce_pin.value = False
